@@ -224,6 +224,7 @@ def shards(tier, seed):
     out.append(("defaultchunk",))
     out.append(("sameobject",))
     out += [("extorder",) + o for n in (2, 3) for o in itertools.product(("asgi", "zerocopy"), repeat=n)]
+    out += [("options", iface) for iface in ("wsgi", "asgi", "zerocopy")]
     return out
 
 
@@ -365,8 +366,63 @@ def run_shard(desc, tier):
     return run_shard_fresh(desc, tier)
 
 
+def run_options(r, iface0):
+    """Constructor options and the documented subclass hook: a content type with non-ASCII (Latin-1) text, download names, extra
+    headers, a subclass that overrides generate_etag(); Range lists written with optional whitespace around the commas."""
+    iface = "wsgi" if iface0 == "wsgi" else "asgi"
+    m = __import__("baize.wsgi" if iface == "wsgi" else "baize.asgi", fromlist=["x"])
+
+    class Tagged(m.FileResponse):
+        @staticmethod
+        def generate_etag(stat_result):
+            return "custom-%d" % stat_result.st_size
+    t = Tree()
+    try:
+        size = 20
+        path = t.file(size)
+        data = content(size)
+        ext = {"http.response.zerocopysend": {}} if iface0 == "zerocopy" else None
+        variants = {
+            "latin1-content-type": lambda: m.FileResponse(path, content_type="application/x-donn\xe9es", chunk_size=4),
+            "charset-content-type": lambda: m.FileResponse(path, content_type="text/plain; charset=utf-8", chunk_size=3),
+            "download-name": lambda: m.FileResponse(path, download_name="r\xe9sum\xe9 final.txt", chunk_size=4),
+            "extra-headers": lambda: m.FileResponse(path, headers={"x-extra": "1", "cache-control": "no-store"}, chunk_size=4),
+            "etag-hook": lambda: Tagged(path, chunk_size=4),
+            "etag-hook-default-chunk": lambda: Tagged(path),
+        }
+        headers_menu = [(None, None), ("bytes=2-5", [("fl", 2, 5)]), ("bytes=0-1,5-8", [("fl", 0, 1), ("fl", 5, 8)]), ("bytes=0-1 , 5-8", [("fl", 0, 1), ("fl", 5, 8)]), ("bytes=0-1\t,\t5-8 ,10-", [("fl", 0, 1), ("fl", 5, 8), ("f", 10)]),
+                        ("bytes= 3-4", [("fl", 3, 4)]), ("bytes=-3", [("s", 3)]), ("bytes=30-", [("f", 30)])]
+        for vname, mk in variants.items():
+            def go(method, headers):
+                random.seed(12345)
+                req = SV.AReq(method=method, headers=headers)
+                if iface == "wsgi":
+                    return SV.run_wsgi(mk(), SV.to_environ(req))
+                return SV.run_asgi(mk(), SV.to_scope(req, extensions=ext) if ext else SV.to_scope(req), SV.to_messages(req))
+            base = go("GET", [])
+            et, lm = base.header("etag"), base.header("last-modified")
+            if vname.startswith("etag-hook") and et != '"custom-20"':
+                r.violation(f"options:etag-hook-ignored:{iface0}", {"options": vname, "iface": iface0}, f"{iface0} subclass overriding generate_etag(): response announces ETag {et!r}")
+            for header, specs in headers_menu:
+                for ifr, honoured in ((None, True), (et, True), (lm, True), ('"other"', False)):
+                    for method in ("GET", "HEAD"):
+                        hs = ([("Range", header)] if header else []) + ([("If-Range", ifr)] if ifr is not None else [])
+                        res = go(method, hs)
+                        r.count("evaluations")
+                        r.count("distinct_nontrivial")
+                        for kind, text in judge(res, None, size, specs, honoured, method, data):
+                            r.violation(f"options:{kind}:{iface0}", {"options": vname, "iface": iface0, "method": method, "range": header, "if_range": ifr},
+                                        f"{iface0} FileResponse variant {vname}, {method} Range={header!r} If-Range={ifr!r} (announced ETag {et!r}): {text}")
+        r.sample({"options": list(variants), "iface": iface0})
+    finally:
+        t.close()
+
+
 def run_shard_fresh(desc, tier):
     r = R()
+    if desc[0] == "options":
+        run_options(r, desc[1])
+        return r
     if desc[0] == "extorder":
         # what one server announces (the zero-copy extension) must not stick to the process: requests with and without the
         # extension in every order of length <= 3 - each order in an interpreter that has served nothing yet - on fresh
@@ -468,6 +524,10 @@ def finish(merged, tier):
 
 def replay(w):
     r = R()
+    if "options" in w:
+        run_options(r, w["iface"])
+        hits = {k: v for k, v in r.viol.items() if v[1].get("options") == w["options"]}
+        return bool(hits), {"violations": sorted(hits), "texts": [v[2][:300] for v in hits.values()]}
     if "extorder" in w:
         rr = run_shard(("extorder",) + tuple(w["extorder"]), "quick")
         return bool(rr.viol), {"violations": sorted(rr.viol)}
